@@ -78,17 +78,17 @@ func (l *Loop) exits() []exitEdge {
 }
 
 type DecodeFacts struct {
-	Reader     *ssa.Function
-	Loops      []*Loop
-	Loop       *Loop
-	RecordConv ssa.Value    // the *unix.InotifyEvent pointer
-	RecordIdx  *ssa.IndexAddr // &buf[offset]
-	OffsetPhi  *ssa.Phi
-	Handler    *ssa.Function
+	Reader      *ssa.Function
+	Loops       []*Loop
+	Loop        *Loop
+	RecordConv  ssa.Value      // the *unix.InotifyEvent pointer
+	RecordIdx   *ssa.IndexAddr // &buf[offset]
+	OffsetPhi   *ssa.Phi
+	Handler     *ssa.Function
 	HandlerCall *ssa.Call
-	SendCalls  []*ssa.Call // calls of the event send function inside the loop
-	ErrCalls   []*ssa.Call // calls of the error send function inside the loop
-	RecordType *types.Named
+	SendCalls   []*ssa.Call // calls of the event send function inside the loop
+	ErrCalls    []*ssa.Call // calls of the error send function inside the loop
+	RecordType  *types.Named
 }
 
 // stripConv follows conversions backwards.
